@@ -59,6 +59,10 @@ type Config struct {
 	// constructors that fall back to the default: "new", and "size" / "bufsize" /
 	// "get" with an N that selects it.
 	Default int `json:"default_write_buffer,omitempty"`
+	// Spare ("buffer" ctor): the caller's slice has cap = len + Spare, i.e. it is
+	// the head of a larger (pooled / re-sliced) array whose tail holds other
+	// bytes (0xEE here). The writer may only use what it was given or allocates.
+	Spare int `json:"spare_cap,omitempty"`
 }
 
 // Extension bits of Config.Ext.
@@ -253,7 +257,7 @@ func New(c Config, dest io.Writer) *wsutil.Writer {
 		defer func() { wsutil.DefaultWriteBuffer = saved }()
 	}
 	if c.Reuse == "" {
-		w = construct(c.Ctor, c.N, dest, c.State(), ws.OpCode(c.Op))
+		w = construct(c.Ctor, c.N, c.Spare, dest, c.State(), ws.OpCode(c.Op))
 	} else {
 		w = secondLife(c, dest)
 	}
@@ -261,7 +265,7 @@ func New(c Config, dest io.Writer) *wsutil.Writer {
 	return w
 }
 
-func construct(ctor string, n int, dest io.Writer, st ws.State, op ws.OpCode) *wsutil.Writer {
+func construct(ctor string, n, spare int, dest io.Writer, st ws.State, op ws.OpCode) *wsutil.Writer {
 	switch ctor {
 	case "new":
 		return wsutil.NewWriter(dest, st, op)
@@ -270,7 +274,11 @@ func construct(ctor string, n int, dest io.Writer, st ws.State, op ws.OpCode) *w
 	case "bufsize":
 		return wsutil.NewWriterBufferSize(dest, st, op, n)
 	case "buffer":
-		return wsutil.NewWriterBuffer(dest, st, op, make([]byte, n))
+		arr := make([]byte, n+spare)
+		for i := range arr {
+			arr[i] = 0xEE
+		}
+		return wsutil.NewWriterBuffer(dest, st, op, arr[:n])
 	case "get":
 		return wsutil.GetWriter(dest, st, op, n)
 	}
@@ -290,7 +298,7 @@ func secondLife(c Config, dest io.Writer) *wsutil.Writer {
 	if c.Reuse == "pool" && poolClass(c.N) {
 		ctor = "size"
 	}
-	w := construct(ctor, c.N, trash, pst, pop)
+	w := construct(ctor, c.N, c.Spare, trash, pst, pop)
 	w.SetExtensions(Extensions(ExtCompressed | ExtRsv2)...)
 	if c.PrevUse&4 != 0 {
 		w.DisableFlush()
